@@ -68,6 +68,9 @@ def pair(t, label, case, left, right, X, Y=None):
     sr, orr = guarded(right[1], Y.copy())
     t.c['evaluations'] += 1
     fname = '%s~%s' % (left[0], right[0])
+    if 'timeout' in (sl, sr):      # the 20 s call budget ran out: never "both raise the same exception"
+        t.viol(fname, label + ':does_not_terminate', case, observed=[sl, sr])
+        return
     if sl != 'ok' and sr != 'ok':
         if type(ol) is not type(orr):
             t.viol(fname, label + ':different_exceptions', case, observed=[ol, orr])
